@@ -19,8 +19,8 @@ SRC = os.path.join(REPO, "pandora", "aggregation", "cbca.py")
 KERNELS = ["cbca_step_1", "cbca_step_2", "cbca_step_3", "cbca_step_4", "cross_support"]
 DTYPES = {"f8": "F64", "f4": "F32", "i2": "I16", "i8": "I64"}
 NP_DTYPES = {"float64": "F64", "float32": "F32", "int16": "I16", "int64": "I64"}
-BINOPS = {ast.Add: "Add", ast.Sub: "Sub", ast.Mult: "Mul"}
-CMPOPS = {ast.GtE: "Ge", ast.Gt: "Gt", ast.LtE: "Le", ast.Lt: "Lt", ast.Eq: "Eq", ast.NotEq: "Ne"}
+BINOPS = {ast.Add: "BAdd", ast.Sub: "BSub", ast.Mult: "BMul"}
+CMPOPS = {ast.GtE: "BGe", ast.Gt: "BGt", ast.LtE: "BLe", ast.Lt: "BLt", ast.Eq: "BEq", ast.NotEq: "BNe"}
 
 
 def parse_signature(where, text):
@@ -89,9 +89,9 @@ class Tr:
         if isinstance(e, ast.UnaryOp) and isinstance(e.op, ast.USub):
             if isinstance(e.operand, ast.Constant) and type(e.operand.value) is int:
                 return f"(EInt ({-e.operand.value})%Z)"
-            return f"(EUn Neg {self.expr(e.operand)})"
+            return f"(EUn UNeg {self.expr(e.operand)})"
         if isinstance(e, ast.UnaryOp) and isinstance(e.op, ast.Not):
-            return f"(EUn Not {self.expr(e.operand)})"
+            return f"(EUn UNot {self.expr(e.operand)})"
         if isinstance(e, ast.Name):
             if e.id in self.ar:
                 fail(w, f"array {e.id} used as a value")
@@ -118,13 +118,13 @@ class Tr:
         if isinstance(e, ast.Call) and not e.keywords:
             f = e.func
             if isinstance(f, ast.Name) and f.id in ("min", "max") and len(e.args) == 2:
-                return f"(EBin {'Min' if f.id == 'min' else 'Max'} {self.expr(e.args[0])} {self.expr(e.args[1])})"
+                return f"(EBin {'BMin' if f.id == 'min' else 'BMax'} {self.expr(e.args[0])} {self.expr(e.args[1])})"
             if isinstance(f, ast.Name) and f.id == "abs" and len(e.args) == 1:
-                return f"(EUn Abs {self.expr(e.args[0])})"
+                return f"(EUn UAbs {self.expr(e.args[0])})"
             if self.is_np(f, "isnan") and len(e.args) == 1:
-                return f"(EUn IsNan {self.expr(e.args[0])})"
+                return f"(EUn UIsNan {self.expr(e.args[0])})"
             if self.is_np(f, "isfinite") and len(e.args) == 1:
-                return f"(EUn IsFinite {self.expr(e.args[0])})"
+                return f"(EUn UIsFinite {self.expr(e.args[0])})"
             if self.is_np(f, "sum") and len(e.args) == 1:
                 s = e.args[0]
                 if (isinstance(s, ast.Subscript) and isinstance(s.slice, ast.Tuple) and len(s.slice.elts) == 2
@@ -191,7 +191,7 @@ class Tr:
                 fail(w, "only += is understood")
             if isinstance(s.target, ast.Name):
                 x = self.scalar_use(s.target)
-                return [f"SAssign {x} (EBin Add (EVar {x}) {self.expr(s.value)})"]
+                return [f"SAssign {x} (EBin BAdd (EVar {x}) {self.expr(s.value)})"]
             if isinstance(s.target, ast.Subscript):
                 a, rank, idx = self.target_index(s.target)
                 if rank != 2 or any(isinstance(i, ast.Slice) for i in idx):
